@@ -138,7 +138,7 @@ func (r *run) writeEvidence(ld *loaded, results []*interp.HarnessResult, cases [
 			"forks_by_kind":            total.Forks,
 			"instructions_executed":    total.Instrs,
 			"harnesses":                harnesses,
-			"native_replays":           map[string]any{"cases": len(cases), "agreed": validated, "disagreed": disagreements, "wall_s": round3(replayWall.Seconds())},
+			"native_replays":           map[string]any{"cases": len(cases), "agreed": validated, "disagreed": disagreements, "same_verdict_other_tie_break": r.tieBreakNotes, "wall_s": round3(replayWall.Seconds())},
 			"known_findings_confirmed": knownConfirmed,
 			"inconclusive":             inconclusive,
 			"load_s":                   round3(loadTime.Seconds()),
